@@ -497,28 +497,49 @@ def main(check: Check, argv):
     all_viol, all_dis = [], []
     stream_stats = {}
     samples = []
-    for st in check.streams:
-        rng = random.Random(f"{seed}:{prop}:{st.name}")
-        stats = stream_stats.setdefault(st.name, {})
-        cases = list(st.corpus) + _corpus_files(prop, st.name)
-        gen = st.cases(rng, args.tier)
-        for c in gen:
-            cases.append(c)
-            if len(cases) >= budget:
-                break
-        ts = time.time()
-        try:
-            v, d = run_stream(st, cases, driver, model_ok, stats)
-        except Exception:  # harness bug / driver crash: infrastructure, not a violation
-            traceback.print_exc()
-            log(f"stream {st.name}: infrastructure failure")
-            return 2
-        stats["wall_s"] = round(time.time() - ts, 2)
-        stats["exhaustive"] = bool(st.exhaustive(args.tier))
-        all_viol += v
-        all_dis += d
-        samples += [{"stream": st.name, "case": c} for c in cases[:2] + cases[-1:]]
-        log(f"stream {st.name}: cases={len(cases)} model_compared={stats.get('model_compared',0)} disagreements={len(d)} oracle_violations={len(v)} ({stats['wall_s']}s)")
+    def run_round(k):
+        """one pass over all streams; k = 0 is the base pass (corpus + generated cases), k > 0 are
+        the extra thorough-tier passes with derived seeds (no corpus, exhaustive streams skipped)"""
+        for st in check.streams:
+            if k and st.exhaustive(args.tier):
+                continue
+            rng = random.Random(f"{seed}:{prop}:{st.name}" + (f":round{k}" if k else ""))
+            stats = stream_stats.setdefault(st.name, {})
+            cases = [] if k else list(st.corpus) + _corpus_files(prop, st.name)
+            gen = st.cases(rng, args.tier)
+            for c in gen:
+                cases.append(c)
+                if len(cases) >= budget:
+                    break
+            ts = time.time()
+            try:
+                v, d = run_stream(st, cases, driver, model_ok, stats)
+            except Exception:  # harness bug / driver crash: infrastructure, not a violation
+                traceback.print_exc()
+                log(f"stream {st.name}: infrastructure failure")
+                return 2
+            stats["wall_s"] = round(stats.get("wall_s", 0) + time.time() - ts, 2)
+            stats["exhaustive"] = bool(st.exhaustive(args.tier))
+            stats["rounds"] = stats.get("rounds", 0) + 1
+            all_viol.extend(v)
+            all_dis.extend(d)
+            if not k:
+                samples.extend({"stream": st.name, "case": c} for c in cases[:2] + cases[-1:])
+            log(f"stream {st.name}{f' (round {k})' if k else ''}: cases={len(cases)} model_compared={stats.get('model_compared',0)} disagreements={len(d)} oracle_violations={len(v)} ({round(time.time() - ts, 2)}s)")
+        return 0
+
+    if run_round(0) == 2:
+        return 2
+    if args.tier == "thorough":
+        # keep exploring with derived seeds until the time budget of the thorough tier is used or
+        # something was found (VERIF_THOROUGH_SECONDS, default 420 s for the stream part)
+        limit = float(os.environ.get("VERIF_THOROUGH_SECONDS", "420"))
+        t_streams = time.time()
+        k = 0
+        while time.time() - t_streams < limit and not all_dis and not [v for v in all_viol if v.key not in known] and k < 200:
+            k += 1
+            if run_round(k) == 2:
+                return 2
 
     # 6 failing-input search when something broke
     searched = 0
